@@ -143,6 +143,12 @@ structure Env where
   fixF3 : Bool := true
   /-- repair C06-F8 (/repo f949e13: a clashing tag binding fails the alternative); `false` = before -/
   fixF8 : Bool := true
+  /-- repair C06-F5 (/repo 750cd8e: candidate lists of later output nodes are keyed without the overload, and a
+  list replaces the shared iterator); `false` = the code before the repair -/
+  fixF5 : Bool := true
+  /-- repair C06-F5b (/repo fd860b7: `NodePattern.__init__` computes the identifier from `self.op`, so copies
+  made by `clone` keep it); `false` = the code before the repair -/
+  fixF5b : Bool := true
   /-- `math.isclose(host, pattern, rel_tol=…, abs_tol=…)` — an abstract relation indexed by the two
   tolerances the `Constant` pattern carries (C05 judges the numeric use). -/
   close : Tol → Tol → Int → Int → Bool
@@ -220,6 +226,12 @@ def crossGraphBad (g : Graph) (vp : VPat) (v : Option ValueId) : Bool :=
   | some x => g.isForeign x && !vp.crossGraphOk
   | none => false
 
+/-- `if pattern_value.tag_var is not None: self._match.bind(tag_var, tag)` inside the sub-match -/
+def tagBind (tagVar : Option String) (t : Int) (st : Stack) : Stack :=
+  match tagVar with
+  | some tv => (bind st tv (.tag t)).2
+  | none => st
+
 mutual
 /-- `_match_value` -/
 def matchValue (E : Env) (rec : NPId → NodeId → Stack → R) (vp : VPat) (v : Option ValueId)
@@ -273,10 +285,7 @@ def matchAlts (E : Env) (rec : NPId → NodeId → Stack → R) (alts : List VPa
   | a :: rest =>
     let r := matchValue E rec a v (enter st)
     if r.1 then
-      let st2 :=
-        match tagVar with
-        | some t => (bind r.2 t (.tag (tags.headD 0))).2
-        | none => r.2
+      let st2 := tagBind tagVar (tags.headD 0) r.2
       -- merge_current_match raises ValueError when the sub-match was failed by the tag
       -- binding; modelled as a failure (outside the correspondence domain)
       if topOk st2 then (true, mergeTop E.fixF3 st2)
@@ -405,20 +414,30 @@ def product {α} : List (List α) → List (List α)
 
 def GNode.opKey (n : GNode) : String × String × String := (n.domain, n.op, n.overload)
 
+/-- `NodePattern.op_identifier()`; with repair C06-F5b a copy made by `clone` (`opIsStr = false`) has it too -/
+def NPat.opIdF (fix5b : Bool) (np : NPat) : Option (String × String) :=
+  if !np.opIsStr && !fix5b then none else
+  match np.domain, np.op with
+  | .exact d, .exact o => some (d, o)
+  | _, _ => none
+
+/-- is node `i` a candidate for a pattern node with identifier `(d, o, "")` -/
+def isCandidate (E : Env) (d o : String) (i : NodeId) : Bool :=
+  match E.g.nodes[i]? with
+  | some gn => if E.fixF5 then gn.domain == d && gn.op == o else gn.opKey == (d, o, "")
+  | none => false
+
 /-- candidate lists for the output nodes after the first: nodes with the same operator identifier
 in graph order; a pattern node without identifier gets the *shared* iterator over all nodes —
 the first such gets every node, later ones find it exhausted. -/
 def candidatesRest (E : Env) : List NPId → Bool → List (List NodeId)
   | [], _ => []
   | np :: rest, allUsed =>
-    match (E.p.nodes[np]?).bind NPat.opId with
+    match (E.p.nodes[np]?).bind (NPat.opIdF E.fixF5b) with
     | none =>
-      (if allUsed then [] else List.range E.g.nodes.length) :: candidatesRest E rest true
+      (if allUsed && !E.fixF5 then [] else List.range E.g.nodes.length) :: candidatesRest E rest true
     | some (d, o) =>
-      ((List.range E.g.nodes.length).filter (fun i =>
-        match E.g.nodes[i]? with
-        | some gn => gn.opKey == (d, o, "")
-        | none => false)) :: candidatesRest E rest allUsed
+      ((List.range E.g.nodes.length).filter (isCandidate E d o)) :: candidatesRest E rest allUsed
 
 /-- first truthy result, else the last one, else "No match found." -/
 def firstMatch (E : Env) (rm : Bool) : List (List NodeId) → Option Result → Result
